@@ -80,6 +80,9 @@ TARGETS = [
     ("src/internal/summary.rs", "SummaryInfo", "uuid", "propset"),
     ("src/internal/summary.rs", "SummaryInfo", "set_uuid", "propset"),
     ("src/internal/propset.rs", "PropertySet", "write", "serial"),
+    ("src/internal/package.rs", "<F:Read+Write+Seek>Package<F>", "create_table_with_name", "mktable"),
+    ("src/internal/query.rs", "Insert", "exec", "execgate"),
+    ("src/internal/query.rs", "Update", "exec", "execgate"),
 ]
 
 OPS = [
